@@ -31,3 +31,13 @@ package gopacket
 //@ func (d *DecodeFailure) String() string
 //@   props C01
 //@   requires d.err != nil
+
+// The options handed to decoders are the packet's own option block: never nil.
+//@ func (p *packet) DecodeOptions() *DecodeOptions
+//@   props C19 C01
+//@   ensures result != nil
+//@   modifies nothing
+//@ ifacecontract PacketBuilder.DecodeOptions() *DecodeOptions
+//@   props C19 C01
+//@   ensures result != nil
+//@   modifies nothing
